@@ -138,7 +138,11 @@ class Check:
         for key, n in sorted(self.known_hits.items()):
             k = self.is_known(key)
             print("KNOWN-FINDING: property=%s %s [key=%s, seen %d time(s) in this run]" % (self.pid, k.get("what", ""), key, n))
-        if self.broken:
+        if self.broken and self.violations:
+            # a sanity guard of the machinery failed, but violations were observed all the same (the guard's failure is then
+            # usually a symptom, e.g. "no cancel signal ever observed"): the observations stand
+            print("NOTE property=%s: sanity guard failed (%s); violations were observed nevertheless" % (self.pid, self.broken))
+        elif self.broken:
             print("BROKEN-CHECK property=%s: %s" % (self.pid, self.broken))
             print("summary: property=%s tier=%s seed=%d evaluations=%d distinct=%d wall=%.1fs" % (self.pid, self.tier, self.seed, self.evaluations, len(self.distinct), wall))
             sys.stdout.flush()
